@@ -17,6 +17,7 @@ Definition D0 : env := {|
     | 0%nat => [0%nat] | 1%nat => [1%nat; 0%nat; 2%nat] | 3%nat => [3%nat] | 4%nat => [4%nat; 3%nat]
     | _ => []
     end;
+  comp_enum := fun _ => false;
   iface_resource := fun i => Nat.leb 3 i;
   iface_supers := fun i => match i with 1%nat => [0%nat] | 4%nat => [3%nat] | _ => [] end;
 |}.
